@@ -66,7 +66,7 @@ def check(world):
             mode.append(a.lstrip('-'))
 
     def ctx():
-        c = list(mode) + ['after-' + f for f in faults]
+        c = sorted(mode) + sorted('after-' + f for f in faults)
         return ('|' + '+'.join(c)) if c else ''
 
     def flag(what, detail, i):
@@ -102,9 +102,9 @@ def check(world):
                 flag('layer-setUp:base-not-set-up',
                      'setUp of %s ran while its bases %s were not set up'
                      % (name, missing), i)
+            torn.discard(name)
             if beh == 'ok':
                 up.add(name)
-                torn.discard(name)
             else:
                 fault('setUp-' + beh)
         elif kind == 'hook' and e[1] == 'tearDown':
@@ -185,6 +185,23 @@ def check(world):
                          'layers %s ran here and were handed to resume_tests'
                          % sorted(handed & ran)))
     return viol
+
+
+def collapse(findings):
+    """one defect, one key: a key is ``what|context`` (context = options in use
+    and layer faults seen before the violation).  Of all variants of the same
+    ``what`` only those with a minimal context (as a set) are reported."""
+    by_what = {}
+    for f in findings:
+        what, _, c = f['key'].partition('|')
+        by_what.setdefault(what, []).append(
+            (frozenset(c.split('+')) if c else frozenset(), f))
+    out = []
+    for what, items in sorted(by_what.items()):
+        for c, f in items:
+            if not any(c2 < c for c2, _ in items):
+                out.append(f)
+    return out
 
 
 def nontrivial(world):
@@ -367,7 +384,9 @@ def run(budget_s, seed, tier='quick'):
                      (False, True))}
         bound = ('exhaustive part: as quick tier, but 3-layer DAGs with 5 '
                  'hook configs per layer and unit tests yes/no. ')
-    stages = [('small', stage_small(small)), ('options', stage_options())]
+    stages = [('dags<=2', stage_small({n: small[n] for n in (1, 2)})),
+              ('options', stage_options()),
+              ('dags3', stage_small({3: small[3]}))]
     exhaustive = True
     done = {}
 
@@ -391,7 +410,7 @@ def run(budget_s, seed, tier='quick'):
                 break
             one(spec, sname)
             k += 1
-            if len(samples) < 2 and k in (40, 900):
+            if len(samples) < 3 and k == 40:
                 samples.append(spec)
         done[sname] = k
     k = 0
@@ -417,7 +436,7 @@ def run(budget_s, seed, tier='quick'):
                  'class/instance, shuffled names, 1-4 faults, random options) '
                  'until the budget is used; runs per stage: %s' % done,
         'samples': samples[:5],
-        'findings': findings.as_list(),
+        'findings': collapse(findings.as_list()),
         'notes': 'runner crashes (exception out of Runner.run): %d' % crashes,
     }
 
